@@ -10,7 +10,7 @@ from multiprocessing import Pool
 from harness import common as C
 
 PROP = "C10"
-# 1 = /repo carries fix C10-F1 (sort_dataframe_by_onsets is a stable sort): repaired model, full statement.
+# 1 = /repo carries fix commit 29fcd01 for C10-F1 (sort_dataframe_by_onsets is a stable sort): repaired model, full statement.
 # 0 = unpatched tree: unrepaired model, the recorded tie order of sort_values is an oracle/model input and the
 #     finding class C10-F1 is accepted (needs the C10-F1 entry in known_findings.json).
 FIXED = int(os.environ.get("VERIF_C10_FIXED", "1"))
@@ -24,17 +24,22 @@ TRUSTED = [
     "Model/Timeline.v is a hand transcription of df_util.sort_dataframe_by_onsets / split_delay_tags / "
     "_indexed_dict_from_onsets / _filter_by_index_list, BaseInput.needs_sorting and "
     "SpreadsheetValidator._run_onset_checks; pandas (DataFrame construction, .loc append, reset_index, to_numeric) "
-    "and HedTag.value_as_default_unit are trusted; since fix C10-F1 sort_values(kind='stable') is modelled as the "
+    "and HedTag.value_as_default_unit are trusted; since fix commit 29fcd01 (C10-F1) sort_values(kind='stable') is modelled as the "
     "stable insertion sort (pandas' stable sort is trusted to be stable; every recorded sort result is checked to "
     "be order-preserving on each run); VERIF_C10_FIXED=0 selects the unrepaired model whose tie order is an input",
     "SpreadsheetValidator.validate's 'self._onset_validator = OnsetValidator()' is modelled by sv_validate / "
-    "validate_seq (a fresh validator per call); tied by sequences of files validated on ONE SpreadsheetValidator "
+    "validate_seq (a fresh validator per call): C10_files_independent holds by construction of that model and is "
+    "NOT a proof about the validator object; that the implementation does so is tested only, by sequences of files validated on ONE SpreadsheetValidator "
     "object, each file compared with the model and the statement run from the empty state",
     "str.casefold is modelled per character: ASCII by rule, the non-ASCII code points of the generators' name "
     "alphabet (sharp s, capital sharp s, final sigma, accented Greek, fi ligature, long s) by Gen/C10Fold.v, "
     "regenerated from CPython's str.casefold on every run; other code points are outside the model",
 ]
 ASSUMPTIONS = [
+    "C10_delayed_entry_time, C10_remaining_groups, C10_row_failed_iff and C10_warnings_only_row_takes_part restate "
+    "model definitions (documentation of the model, no proof content); whether a Delay value converts to seconds "
+    "and the severities of a row's cell issues are INPUTS of the model (tested: schema-derived effective times and "
+    "invalid_original_rows are compared on every generated file)",
     "Delay values in any accepted unit spelling enter the model as their value in 1/8 s computed from the schema "
     "XML's conversion factors (read with xml.etree, independent of UnitEntry); prefixes whose factor the XML writes as "
     "'10e..' are left out; the recorded effective onsets of split_df must equal these values exactly",
@@ -46,7 +51,7 @@ ASSUMPTIONS = [
     "structural group errors (ONSET_NO_DEF_TAG_FOUND, ONSET_TOO_MANY_DEFS, ONSET_DEF_UNMATCHED ...) come from "
     "DefValidator.validate_onset_offset and are outside C10; only OFFSET_BEFORE_ONSET, INSET_BEFORE_ONSET and "
     "ONSET_SAME_DEFS_ONE_ROW are compared",
-    "the theorems quantify over ALL histories/files of the model (fixed=true = the code with fix C10-F1); the tie to /repo is differential testing "
+    "the theorems quantify over ALL histories/files of the model (fixed=true = the current code, with fix commit 29fcd01 for C10-F1); the tie to /repo is differential testing "
     "(exhaustive for short histories, random beyond)",
 ]
 
@@ -1120,7 +1125,7 @@ def run(tier, seed, res, model_ok=True, proof_ok=True):
     wide = 1 if proof_ok else 3
     if not FIXED:      # pre-fix tree: the repaired finding is accepted again (it is no longer in known_findings.json)
         res.known_ids.setdefault("C10-F1", {"what": "pre-fix tree (VERIF_C10_FIXED=0): tie order of sort_values "
-                                                    "among equal onsets is platform dependent (repaired by fix-F1)"})
+                                                    "among equal onsets is platform dependent (repaired by fix commit 29fcd01)"})
     corpus = CORPUS + [F1_WITNESS]
     small = quick and os.environ.get("VERIF_C10_BUDGET") == "small"
     specs, exh_rule = exh_specs("small" if small else tier)
